@@ -22,7 +22,7 @@ RULE = ("seeded random histories: 1-2 built arrays (shapes with empty rows), the
         "in scope; each history is run once as is and once per (position, array, read kind) with one extra read inserted (all positions; seeded choice of "
         "array and kind; kinds: tolist str ravel sum ufunc concatenate iter int-row | len shape size discarded-selection); compared: every read output and the "
         "final content of every array; non-trivial = the history contains an assignment and a selection; distinct = distinct (history, insertion)")
-MAT_READS = ["tolist", "str", "ravel", "sum", "ufunc", "concatenate", "iter", "introw"]
+MAT_READS = ["tolist", "str", "ravel", "sum", "ufunc", "concatenate", "iter", "introw", "mean", "max", "gtcol", "mulcol", "subcol", "sort", "where", "nonzero", "sum0", "colcounts", "padded", "accumulate"]
 PEEKS = ["len", "shape", "size", "peeksel"]
 BASES = [[[0, 1, 2], [3, 4], [5], [6, 7]], [[], [0, 1], [2], []], [[0, 1, 2, 3], [4, 5, 6], [7, 8, 9, 10]], [[0], [], [1, 2]]]
 
@@ -53,8 +53,37 @@ def gen_sel(rng, lens, allow_empty=True):
     return rs, cs
 
 
+COLS = [1e16, 0.1, 0.3, 1e-3, 7.0, 0.5, 2.0, 1e8]
+
+
+def read_result(x, kind):
+    """the read's own result (a pure function of the array's content), canonicalised"""
+    import numpy as np
+    from harness.fam_ra2 import ra_obs, kl
+    n = len(x)
+    col = np.array([COLS[i % len(COLS)] for i in range(n)])[:, None]
+    with np.errstate(all="ignore"):
+        if kind == "sum": return kl(x.sum(axis=-1))
+        if kind == "ufunc": return ra_obs(x + 1)
+        if kind == "concatenate": return ra_obs(np.concatenate([x, x]))
+        if kind == "mean": return kl(x.mean(axis=-1))
+        if kind == "max": return kl(x.max(axis=-1)) if n and min(np.asarray(x.lengths).tolist()) > 0 else None
+        if kind == "gtcol": return ra_obs(x > col) if n else None
+        if kind == "mulcol": return ra_obs(x * col) if n else None
+        if kind == "subcol": return ra_obs(x - x.mean(axis=-1, keepdims=True)) if n and min(np.asarray(x.lengths).tolist()) > 0 else None
+        if kind == "sort": return ra_obs(x.sort(axis=-1))
+        if kind == "where": return ra_obs(np.where(x > 3, x, 0))
+        if kind == "nonzero": return [kl(a) for a in np.nonzero(x)]
+        if kind == "sum0": return kl(x.sum(axis=0)) if n and max(np.asarray(x.lengths).tolist()) > 0 else None
+        if kind == "colcounts": return kl(x.col_counts()) if n and max(np.asarray(x.lengths).tolist()) > 0 else None
+        if kind == "padded": return kl(x.as_padded_matrix()) if n and max(np.asarray(x.lengths).tolist()) > 0 else None
+        if kind == "accumulate": return ra_obs(np.add.accumulate(x, axis=-1))
+    return None
+
+
 def run_impl(ops):
-    """execute a history on the real code; returns the list of outputs (None for operations without output)"""
+    """execute a history on the real code; returns the list of outputs (None for operations without output); a materialising read
+    outputs [its own result, the array's content after it]"""
     import numpy as np
     from npstructures import RaggedArray
     vars_ = []; outs = []
@@ -64,19 +93,16 @@ def run_impl(ops):
     for o in ops:
         k = o[0]
         if k == "build":
-            vars_.append(RaggedArray(o[1], dtype=int)); outs.append(None)
+            vars_.append(RaggedArray(o[1], dtype=float)); outs.append(None)
         elif k == "select":
             vars_.append(vars_[o[1]][py_index(o[2], o[3])]); outs.append(None)
         elif k == "assign":
             vars_[o[1]][py_index(o[2], o[3])] = o[4]; outs.append(None)
         elif k == "read":
-            x = vars_[o[1]]; kind = o[2]
+            x = vars_[o[1]]; kind = o[2]; res = None
             if kind == "tolist": x.tolist()
             elif kind == "str": str(x)
             elif kind == "ravel": x.ravel()
-            elif kind == "sum": x.sum(axis=-1)
-            elif kind == "ufunc": x + 1
-            elif kind == "concatenate": np.concatenate([x, x])
             elif kind == "iter": list(iter(x))
             elif kind == "introw":
                 if len(x): x[0]
@@ -85,8 +111,21 @@ def run_impl(ops):
             elif kind == "shape": x.shape
             elif kind == "size": x.size
             elif kind == "peeksel": x[0:1]
-            outs.append(x.tolist() if kind in MAT_READS else "peek")
+            else: res = read_result(x, kind)
+            outs.append([res, [[int(v) for v in r] for r in x.tolist()]] if kind in MAT_READS else "peek")
     return outs
+
+
+def model_results(ops, contents):
+    """what the reads of a history return when every array has the content the heap model says it has at that moment"""
+    from npstructures import RaggedArray
+    out = []
+    reads = [o for o in ops if o[0] == "read" and o[2] in MAT_READS]
+    for o, c in zip(reads, contents):
+        kind = o[2]
+        if c is None or kind in ("tolist", "str", "ravel", "iter", "introw"): out.append([None, c]); continue
+        out.append([guarded(lambda: read_result(RaggedArray(c, dtype=float), kind)), c])
+    return out
 
 
 def enc_ops(ops):
@@ -169,20 +208,21 @@ def run(R, tier, rng):
         mb, vb, safe_b = parse(ob); mm, vm, safe_m = parse(om)
         mods = [o for o in mod if not (o[0] == "read" and o[2] in PEEKS)]
         j = len([o for o in mod[:i] if not (o[0] == "read" and o[2] in PEEKS)])
-        model_b = [o for o in mb if o is not None]
-        model_m_all = list(mm)
-        if rd[2] in MAT_READS: del model_m_all[j]
-        model_m = [o for o in model_m_all if o is not None]
+        model_b = model_results(base, [o for o in mb if o is not None])
+        full_m = model_results(mod, [o for o in mm if o is not None])
+        model_m = list(full_m)
+        if rd[2] in MAT_READS:
+            del model_m[len([o for o in mod[:i] if o[0] == "read" and o[2] in MAT_READS])]
         unsafe = not (safe_b and safe_m)
         n_unsafe += unsafe
-        if rb != model_b or (im is not None and reads(mod, im) != [o for o in mm if o is not None]):
+        if rb != model_b or (im is not None and reads(mod, im) != full_m):
             mismatch.append(case)
         nt = any(o[0] == "assign" for o in base) and any(o[0] == "select" for o in base)
         R.record(case, [rb, rm], [model_b, model_m], [rb, rb], nt, "pair/" + ("unsafe" if unsafe else "safe") + "/" + rd[2],
                  cls="K1-write-into-shared-buffer" if unsafe else None, py=py_text(base) + "   ||  insert at %d: read:%s(v%d)" % (i, rd[2], rd[1]))
         # inside the guard the theorem says the heap machine equals value semantics: the model itself must agree with it there
-        if not unsafe and (model_b != [o for o in vb if o is not None]):
-            R.internal.append({"case": case, "model": model_b, "spec": vb})
+        if not unsafe and ([o for o in mb if o is not None] != [o for o in vb if o is not None]):
+            R.internal.append({"case": case, "model": mb, "spec": vb})
     R.notes["histories_run_on_implementation"] = n_hist_run
     R.notes["pairs_outside_the_guard_of_C10_partial"] = n_unsafe
     R.ties.append({"tie": "implementation = heap model (Model/Heap.v) on every history, safe or not", "ok": not mismatch,
